@@ -21,14 +21,17 @@ struct Job {
     trailing: Vec<usize>,
     dynamic: bool,
     strat: Strat,
+    /// lanes with an odd C-order index hold only zeros (whole blocks of all-zero lanes)
+    zero_odd_lanes: bool,
 }
 impl Job {
     fn key(&self) -> String {
         format!(
-            "{}:{:?}{}:{}",
+            "{}:{:?}{}{}:{}",
             self.ax.name,
             self.trailing,
             if self.dynamic { "dyn" } else { "" },
+            if self.zero_odd_lanes { "/odd-lanes-zero" } else { "" },
             match &self.strat {
                 Strat::Linear => "Linear".to_string(),
                 Strat::Bilinear => "Bilinear".to_string(),
@@ -178,6 +181,9 @@ fn run(job: &Job, out: &mut JobOut) {
     let periodic = matches!(&job.strat, Strat::Spline(s) if s.is_periodic());
     // lanes: data of lane j (for 2-D: a (n x 3) table per lane)
     let lane_tab = |j: usize, variant: usize| -> Vec<f64> {
+        if job.zero_odd_lanes && j % 2 == 1 && variant == 0 {
+            return vec![0.0; n * if two_d { 3 } else { 1 }];
+        }
         if two_d {
             let mut t = vec![];
             for i in 0..n {
@@ -277,7 +283,7 @@ fn run(job: &Job, out: &mut JobOut) {
             Strat::Spline(s) => Strat::Spline(lane_spec(s, j)),
             o => o.clone(),
         };
-        let alone_job = Job { ax: job.ax.clone(), trailing: vec![], dynamic: false, strat: alone_strat.clone() };
+        let alone_job = Job { ax: job.ax.clone(), trailing: vec![], dynamic: false, strat: alone_strat.clone(), zero_odd_lanes: false };
         let mut shape = vec![n];
         if two_d {
             shape.push(3);
@@ -430,8 +436,26 @@ fn body(ctx: &Ctx) -> (Summary, Meta) {
                     strats.push(Strat::Bilinear);
                 }
                 for s in strats {
-                    jobs.push(Job { ax: ax.clone(), trailing: tr.clone(), dynamic, strat: s });
+                    // whole blocks of all-zero lanes with derivative boundary values (a spline through
+                    // zeros is not zero when S' or S'' is prescribed)
+                    if l >= 2 && matches!(&s, Strat::Spline(BcSpec::Lanes(_)) | Strat::Spline(BcSpec::Rows(_))) {
+                        jobs.push(Job { ax: ax.clone(), trailing: tr.clone(), dynamic, strat: s.clone(), zero_odd_lanes: true });
+                    }
+                    jobs.push(Job { ax: ax.clone(), trailing: tr.clone(), dynamic, strat: s, zero_odd_lanes: false });
                 }
+            }
+        }
+    }
+    // long data sets with few lanes (code paths chosen by the number of points / lanes)
+    for n in [256usize, 300] {
+        let mut w = vec![1.0; n - 1];
+        w[7] = 0.5;
+        w[n / 2] = 2.0;
+        w[n - 3] = 4.0;
+        let ax = alpha::axis_from_word("long", 0.0, &w);
+        for tr in [vec![2], vec![3], vec![8], vec![2, 2]] {
+            for s in [Strat::Linear, Strat::Spline(BcSpec::TopNotAKnot), Strat::Spline(BcSpec::TopNatural), Strat::Spline(BcSpec::Periodic), Strat::Spline(BcSpec::RowAll(End::Clamped))] {
+                jobs.push(Job { ax: ax.clone(), trailing: tr.clone(), dynamic: false, strat: s, zero_odd_lanes: false });
             }
         }
     }
